@@ -120,7 +120,7 @@ var specGCDrain = pbt.Register(&pbt.Spec[GCase]{
 		return GCase{Full: rapid.IntRange(0, 2).Draw(t, "full") == 1, Fill: fill, Limit: rapid.SampledFrom([]int{fill, fill + 10, fill / 2}).Draw(t, "limit"), Reps: reps,
 			Procs: rapid.SampledFrom([]int{1, 2, 2, 4, 16}).Draw(t, "procs"), Workers: rapid.SampledFrom([]int{1, 8, 24, 24}).Draw(t, "workers")}
 	},
-	Run: RunGCDrain, Quick: 20, Thorough: 600, Crashy: true, Retries: 20, CaseCPU: 120e9,
+	Run: RunGCDrain, Quick: 20, Thorough: 120, Crashy: true, Retries: 20, CaseCPU: 120e9,
 })
 
 func TestC19GCDrain(t *testing.T) { pbt.Check(t, specGCDrain) }
